@@ -185,10 +185,14 @@ def build(run):
                 news.append(reg("sumchild"))
                 insts.append(cls())                     # must see the new types
             elif cellname == "old-instance-new-type":
-                insts.append(cls())
+                # one old instance per late type, so that the FIRST use of each old instance after the registrations is an instance of a late
+                # type (a lone terminal, an operator, a Sum subclass): no earlier call may have refreshed its tables
+                insts.extend(cls() for _ in range(4))
+                news.append(reg("term"))
                 news.append(reg("op"))
                 news.append(reg("sumchild"))
             inst = insts[-1]
+            inst_for = {T: (insts[k] if cellname == "old-instance-new-type" else inst) for k, (T, _mk) in enumerate(news)}
             n = 0
             # postcondition of __init__ for ALL registered types (table level); for the old-instance cell the table is
             # refreshed lazily, so only the call-level invariant below applies
@@ -219,6 +223,7 @@ def build(run):
                 for o in [mk()] + old_samples():
                     want = oracle(cls, type(o))
                     n += 1
+                    inst = inst_for[T]
                     try:
                         got = apply(framework, inst, o, entry)
                     except ValueError as ex:
